@@ -54,7 +54,10 @@ func c07Floats(thorough bool) []float64 {
 	var out []float64
 	base := []float64{0, 5e-324, 2.2250738585072014e-308, 1e-300, 0.1, 0.5, 1, 1.5, 2, 2.5, 3, 3.5,
 		1 << 53, 1<<53 + 2, 1<<53 - 1, 9223372036854775808.0, 9223372036854775808.0 - 1024, 18446744073709551616.0,
-		1e154, 1.3407807929942597e154, 1e300, math.MaxFloat64, math.MaxFloat64 / 2}
+		1e154, 1.3407807929942597e154, 1e300, math.MaxFloat64, math.MaxFloat64 / 2,
+		// neighbours of the overflow threshold: max's predecessor, half an ulp of max (2^970), one ulp, 1.5 ulp
+		math.Nextafter(math.MaxFloat64, 0), math.Ldexp(1, 970), math.Ldexp(1, 971), math.Ldexp(3, 970), math.Nextafter(math.Ldexp(1, 970), 0),
+		0.49999999999999994, 4503599627370497.0}
 	if thorough {
 		base = append(base, 1e-320, 4.9406564584124654e-324*3, 0.25, 0.75, 0.49999999999999994, 4.5, 7, 10, 1e10, 1e16, 1<<52 + 0.5, 1 << 62, 9223372036854775808.0 + 2048, 1e19, 1e-154, 1e155, 1e308, math.MaxFloat64 / 3, math.Pi)
 	}
